@@ -156,19 +156,19 @@ var propAssumptions = map[string][]string{
 	"C02": {hpkeAssumption, transportAssumption, "bounds: one honest tuple shape (SNI, supported_versions, 2 opaque extensions around the ECH extension, 2 suites); single-byte modifications at every handshake-message offset with every non-zero xor mask; length bytes: off-by-one in the quick tier, shrink-to-anything/grow<=3 in the thorough tier; paths deriving more than 1 length from ciphertext bytes are cut and counted (cut_by_stated_bound)", "outside: the cryptographic assumption itself; hellos of other shapes; multi-byte modifications"},
 	"C03": {hpkeAssumption, transportAssumption, "bounds: <=3 free outer extensions (types 51,10,13,GREASE,45 with 0..2 data bytes), ECH at every position among them, marker at every position of a 5-extension inner list referencing every order-preserving subsequence, padding {0,2}, session id {0,2} bytes, caller buffer sizes {1,201}", "outside: hellos near the 16 KiB record limit; duplicate outer extension types"},
 	"C04": {hpkeAssumption, transportAssumption, "bounds: 14 rule violations (R1..R8f,R10), each applied to one valid hello shape with symbolic contents/positions; R4 in 4 shapes, R5 in 2, R6 with 1- and 2-entry version lists, R8a in 4 malformations; outer-only rules (R1,R2,R3,R10) also on hellos offering TLS 1.2 only / no versions, and R1,R3,R10 at a keyless server; 14 ill-formed retried-hello variants (verifC04RetryRules); single faults only", "outside: multi-fault combinations; the alert class of truncations is checked for consistency with the returned error (verifC04AlertConsistency), not against an independent classification"},
-	"C05": {transportAssumption, "oracle: strict RFC 8446 4.1.2 recogniser and SNI/ALPN extractor written in the harness", "bounds: raw handshake message of 40..47 bytes (thorough ..51); pinned fixed part with a raw extension block of <=12 (18) bytes or none; structured hellos with GREASE/unknown-id/undecryptable ECH, pre-1.3 version lists, unknown extensions", "independent TLS stack: crypto/tls's server (interpreted from its SSA; natively the real one) is fed the forwarded bytes and its ClientHelloInfo.ServerName/SupportedProtos are compared with Conn.ServerName/ALPNProtos wherever it accepts the hello (quick: verifC05Ext; thorough: also verifC05Structured)", "later records (verifC05Later): 3 records in either direction after a presented-but-not-accepted ECH", "outside: fragmented ClientHellos; longer later streams (C07)"},
-	"C06": {hpkeAssumption, transportAssumption, "oracle: reference monitor of the statement in the harness (HRR seen, read/write sides live)", "bounds: histories of 3 (thorough 4) records after the accepted first hello, 15 second-hello variants (incl. key_share compressed via ech_outer_extensions) and one further hello, backend records split over two Write calls at {5,(1,6)}, HelloRetryRequest+change_cipher_spec in one Write, ServerHello randoms one byte from the HelloRetryRequest value at positions {0,31,(13,7,24)}", "verifC06Concurrent: reader blocked in the transport before the HelloRetryRequest is written, every schedule at synchronisation points", "outside: longer histories; ServerHello fragmented across records"},
+	"C05": {transportAssumption, "oracle: strict RFC 8446 4.1.2 recogniser and SNI/ALPN extractor written in the harness", "bounds: raw handshake message of 40..47 bytes (thorough ..51); pinned fixed part with a raw extension block of <=12 (18) bytes or none; structured hellos with GREASE/unknown-id/undecryptable ECH, pre-1.3 version lists, unknown extensions", "independent TLS stack: crypto/tls's server (interpreted from its SSA; natively the real one) is fed the forwarded bytes and its ClientHelloInfo.ServerName/SupportedProtos are compared with Conn.ServerName/ALPNProtos wherever it accepts the hello (quick: verifC05Ext; thorough: also verifC05Structured)", "later records (verifC05Later): 3 records in either direction after a presented-but-not-accepted ECH", "outside: fragmented ClientHellos; longer later streams (C07)", "verifC05TwoConns: two connections in one process, the first drained after the second was set up (sync.Pool objects are recycled most-recent-first in the engine); verifC05Later: 5 kinds of first hello, optional client record already pending behind the hello, Close at the end"},
+	"C06": {hpkeAssumption, transportAssumption, "oracle: reference monitor of the statement in the harness (HRR seen, read/write sides live)", "bounds: histories of 3 (thorough 4) records after the accepted first hello, 15 second-hello variants (incl. key_share compressed via ech_outer_extensions) and one further hello, backend records split over two Write calls at {5,(1,6)}, HelloRetryRequest+change_cipher_spec in one Write, ServerHello randoms one byte from the HelloRetryRequest value at positions {0,31,(13,7,24)}", "verifC06Concurrent: reader blocked in the transport before the HelloRetryRequest is written, every schedule at synchronisation points", "outside: longer histories; ServerHello fragmented across records", "verifC06SecondHRR: fixed script HRR, retried hello, second HRR (alone or behind a change_cipher_spec record), third hello; alert / unknown record types in the history alphabet; 19 second-hello variants (quick tier: one per outcome class in the history, all in verifC04RetryRules, which is registered here too)"},
 	"C07": {transportAssumption, "bounds: state after an accepted hello constructed directly (inspection armed); <=1 (2) client records with symbolic type, body <=2 bytes or boundary lengths 16384/16385/65535, cut anywhere; transport chunk size in {1,2,3,all} and caller buffer in {1,3,64} fixed per run; backend stream of <=2 records written in pieces of {1,2,5,6,all}; one-step inductive Write from any invariant-satisfying state with <=7+6 bytes; legal lengths up to 2^14+256 with zero bodies", "outside: bodies whose contents are inspected beyond byte 5 (none are); per-call varying chunk sizes"},
 	"C08": {hpkeAssumption, transportAssumption, "attacker-sealed inner plaintext (verifC08InnerRaw): raw <=42 (44) bytes or pinned fixed part with a raw inner extension block <=13 (16) bytes; deadline clause (verifC10Stall): client stalled at offsets {0,3,5,len-1} on a transport whose Write blocks, all scheduling-point interleavings", "bounds: NewConn on a raw record of <=48 (52) symbolic bytes with/without a key; pinned fixed part + raw extension block <=16 (24) bytes; structured ECH extension with raw bytes before or after; direct-state Read over <=2 (3) records and Write of <=10 (16) bytes in 3 calls", "verifC08RetryExt: hostile retried hello (raw extension block <=12 (16) bytes, or authentic seal over <=40 (42) raw plaintext bytes); verifC08ServerHello: <=10 (14) raw bytes after the ServerHello random, split writes", "outside: heap growth in bytes (slice lengths are bounded instead); the deadline clause is C10's harness"},
 	"C09": {hpkeAssumption, transportAssumption, "bounds: key lists of 1..3 (4) valid keys, symbolic one-byte ids (collisions chosen by the solver), suite subsets, target at every position or absent; other keys may reuse the target key pair under another config", "retried hello (verifC09Retry): <=2 keys, colliding key before or after the target"},
-	"C10": {transportAssumption, "concurrency layer: goroutines are coroutines; scheduling points are go/channel/select/sync/timer operations and harness yields; every choice among runnable goroutines and among ready select cases is a fork; no pre-emption between ordinary instructions", "native replay of schedule-dependent counterexamples is retried up to 48 times", "verifC10Timeout: context.WithTimeout(200 ms) over a transport that applies deadline values in virtual time"},
-	"C11": {"oracle: draft section 4 layout written out in the harness", "ecdh X25519 key generation is stubbed with fresh symbolic key bytes", "bounds: ids/KEMs/suites fully symbolic, key lengths {0,1,4,32}, <=3 suites, public names of 1,2,3,8,239,240,254,255 bytes (0 and 256 refused), lists of 0..2 (3) configs, raw parser input <=20 (26) bytes", "second oracle: crypto/tls (interpreted from its SSA; natively the real one) parses the config list as a client and accepts config+key as EncryptedClientHelloKeys as a server, for configs from ConfigSpec.Bytes and from NewConfig; only configs crypto/tls can use (KEM 0x20, 32-byte key, two-label DNS public name)", "crypto/internal/hpke.SetupSender/SetupReceipient and X25519 arithmetic are stubbed (the oracle is used as a parser)", "outside: real handshakes (C01)"},
+	"C10": {transportAssumption, "concurrency layer: goroutines are coroutines; scheduling points are go/channel/select/sync/timer operations and harness yields; every choice among runnable goroutines and among ready select cases is a fork; no pre-emption between ordinary instructions", "native replay of schedule-dependent counterexamples is retried up to 48 times", "verifC10Timeout: context.WithTimeout(200 ms) over a transport that applies deadline values in virtual time", "verifC10Accepted: inspected connection (accepted ECH), cancellation after return, then change_cipher_spec / HelloRetryRequest / retried hello; verifC10CancelledAtEntry: context cancelled before NewConn with the hello buffered"},
+	"C11": {"oracle: draft section 4 layout written out in the harness", "ecdh X25519 key generation is stubbed with fresh symbolic key bytes", "bounds: ids/KEMs/suites fully symbolic, key lengths {0,1,4,32}, <=3 suites, public names of 1,2,3,8,239,240,254,255 bytes (0 and 256 refused), lists of 0..2 (3) configs, raw parser input <=20 (26) bytes", "second oracle: crypto/tls (interpreted from its SSA; natively the real one) parses the config list as a client and accepts config+key as EncryptedClientHelloKeys as a server, for configs from ConfigSpec.Bytes and from NewConfig; only configs crypto/tls can use (KEM 0x20, 32-byte key, two-label DNS public name)", "crypto/internal/hpke.SetupSender/SetupReceipient and X25519 arithmetic are stubbed (the oracle is used as a parser)", "outside: real handshakes (C01)", "verifC11Oversized: 200/220/260 concrete configs of 302 bytes"},
 	"C12": {"bounds: whole message symbolic with <=4 (7) bytes after the header (ID/flags pinned); one question or one answer with <=10..14 symbolic bytes; one RR of each of 21 types with <=5 (8) RDATA bytes; loop unwinding limit 300 per activation (the termination assertion)", "LOC float arithmetic is opaque", "third clause (verifC12Resolve): one answer RR with symbolic class/TTL, type in {A,AAAA,CNAME,HTTPS,NS,TXT,unknown} and <=3 (5) symbolic RDATA bytes, owner = a pointer to the queried name, served through the DoH seam to Resolver.Resolve: no panic", "verifC12Params: SvcParam key 0..8/unknown, declared length exact/+1/-1, value <=9 (13) bytes (16/32 for ipv6hint), optional second parameter; SOA tail 0/19/20/21 bytes; SRV/RRSIG names <=3 bytes; LOC 15..17 bytes", "verifC12Memory: count fields in {0,1,0x1000,0xffff}, body <=4 bytes; allocation = bytes requested by make/new/append growth in interpreted code (natively runtime.MemStats.TotalAlloc), bound 16 KiB + 1 KiB per input byte", "verifC12FarPointers: pointer offsets >= 256 into a 260-byte opaque RDATA", "outside: 64 KiB inputs"},
 	"C13": {"oracle: reference RFC 1035 encoder with compression and field-wise equality in the harness", "bounds: all header bits, <=1 question, 1 (2) RRs of A/AAAA/NS/CNAME/PTR/OPT/HTTPS, names of <=1 (2) labels of 1..2 symbolic non-dot bytes, padding for every question-name length 0..130 x 4 OPT shapes, ResponseCode over all 2^8 x 2^32 values", "verifC13Exact: Message.Bytes equals a reference encoder byte for byte (names as \"\", 1..2 labels, trailing dot, 63-byte label)", "verifC13RefEncode: reference-written TXT (<=2 strings), MX, SOA, SRV, SVCB (<=2 parameters), HTTPS with keys 0/1/4/6/7 and two hints each, OPT (<=2 options); RDATA names in full or compressed; symbolic header flags", "verifC13MaxName: 255- and 254-octet names", "outside: MX/SOA/TXT/SRV/SVCB encoding (the encoder does not support them); x/net dnsmessage as second codec"},
-	"C14": {"DoH seam: dns.DoH is diverted to a harness hook (source overlay) that decodes the query actually built", "name forms are concrete (8 forms + 11 literal/hostile forms): string parsing of symbolic text is not attempted", "bounds: symbolic zone with per-query response code in {0,1,2,3,4,5,9} or answers: alias chain <=3 with loops through and past the origin, self-alias, alias to \".\", service records out of priority order with a target (incl. the queried host itself), an RRSet mixing both modes, poisoned answers with unrelated owner names, in-answer CNAME chains of 1..2 hops for A and HTTPS, AAAA answers; alias chains of 0..6 hops from host / host:port / scheme://host; name lengths 240..256 with and without prefix", "outside: arbitrary name strings"},
+	"C14": {"DoH seam: dns.DoH is diverted to a harness hook (source overlay) that decodes the query actually built", "name forms are concrete (8 forms + 11 literal/hostile forms): string parsing of symbolic text is not attempted", "bounds: symbolic zone with per-query response code in {0,1,2,3,4,5,9} or answers: alias chain <=3 with loops through and past the origin, self-alias, alias to \".\", service records out of priority order with a target (incl. the queried host itself), an RRSet mixing both modes, poisoned answers with unrelated owner names, in-answer CNAME chains of 1..2 hops for A and HTTPS, AAAA answers; alias chains of 0..6 hops from host / host:port / scheme://host; name lengths 240..256 with and without prefix", "outside: arbitrary name strings", "verifC14Loops: 4 loop shapes x {host, host:port}; verifC14BadForms: 10 inputs that are no host names, 2 URL forms"},
 	"C15": {"oracle: the rules of the statement as a straight-line reference in the harness", "bounds: <=2 (3) HTTPS records (quick: only the first varies in every field), priority 0..2, target, port, no-default-alpn, ALPN with spare capacity, ECH, hints; <=2 addresses of 4/16 (5) bytes over a 2-value alphabet; ports 443/80 (8443,0); networks tcp,tcp4,udp6 (all six); early termination"},
-	"C16": {"DoH seam as C14; package clock timeNow set to a symbolic non-decreasing clock by the in-package harness", "real golang-lru 2Q cache code and sync.RWMutex (engine model) are executed", "bounds: min-TTL over <=3 answers with arbitrary 32-bit TTLs; histories of 4 (5) operations {lookup, advance clock by <=2^31 s, change zone, toggle upstream failure (transport error, SERVFAIL or response code 9)} on one name; zone shapes: 1..2 A records, no record, records without an answer", "verifC16Keys: two names x two types, concrete TTLs", "concurrency clause (verifC16Race): two goroutines Resolve the same name through one Resolver (cold or warm cache) and enumerate Targets; every schedule with at most 2 pre-emptions at synchronisation points (lock acquire/release, channel operations) is explored and a vector-clock happens-before monitor over all loads, stores, in-place appends and sort swaps reports unordered conflicting accesses; native replay under the Go race detector (-race)", "outside: pre-emption between ordinary instructions, more than 2 goroutines, more than 2 pre-emptions; the LRU library's internals are executed but only its lock operations are scheduling points"},
-	"C17": {"resolver injected through the context (transportResolver) by the in-package harness; DialFunc is a harness function with symbolic outcomes", "concurrency layer as C10 with deterministic scheduling (the property is about data, not order)", "bounds: <=2 HTTPS records (ECH on a symbolic subset) over 2 addresses, RequireECH/PublicName/caller ECH list/caller ServerName symbolic, outcomes {ok,error,ECH rejection with/without retry configs, bare or wrapped}, a retry answered by another retry list, MaxConcurrency 1"},
+	"C16": {"DoH seam as C14; package clock timeNow set to a symbolic non-decreasing clock by the in-package harness", "real golang-lru 2Q cache code and sync.RWMutex (engine model) are executed", "bounds: min-TTL over <=3 answers with arbitrary 32-bit TTLs; histories of 4 (5) operations {lookup, advance clock by <=2^31 s, change zone, toggle upstream failure (transport error, SERVFAIL or response code 9)} on one name; zone shapes: 1..2 A records, no record, records without an answer", "verifC16Keys: two names x two types, concrete TTLs", "concurrency clause (verifC16Race): two goroutines Resolve the same name through one Resolver (cold or warm cache) and enumerate Targets; every schedule with at most 2 pre-emptions at synchronisation points (lock acquire/release, channel operations) is explored and a vector-clock happens-before monitor over all loads, stores, in-place appends and sort swaps reports unordered conflicting accesses; native replay under the Go race detector (-race)", "outside: pre-emption between ordinary instructions, more than 2 goroutines, more than 2 pre-emptions; the LRU library's internals are executed but only its lock operations are scheduling points", "verifC16Constructors: NewResolver x2, SetCacheSize(0) then SetCacheSize(1|2), working set of 3 names; verifC16ZeroTTLConcurrent: expired entry, TTL-0 answers, two concurrent lookups, <=2 pre-emptions"},
+	"C17": {"resolver injected through the context (transportResolver) by the in-package harness; DialFunc is a harness function with symbolic outcomes", "concurrency layer as C10 with deterministic scheduling (the property is about data, not order)", "bounds: <=2 HTTPS records (ECH on a symbolic subset) over 2 addresses, RequireECH/PublicName/caller ECH list/caller ServerName symbolic, outcomes {ok,error,ECH rejection with/without retry configs, bare or wrapped}, a retry answered by another retry list, MaxConcurrency 1", "verifC17AddressForms: 6 address forms (IPv6/IPv4 literals, trailing dot, padded list entry, a failing first name)"},
 	"C18": {"reduced strength: virtual time, goroutine interleavings only at synchronisation points with deterministic scheduling, select choices forked; durations from the grid {0,2,6} units, ConcurrencyDelay 4 units, Timeout 10 units", "bounds: 0..3 targets, MaxConcurrency 1..2, outcomes {succeed, fail, hang, succeed without watching the context}, optional caller cancellation at {0.5,3.5,6.5} units (never at an instant at which an attempt completes)", "verifC18Defaults: zero-valued Dialer, 5 hanging targets, cancellation after 2.5 s", "time upper bounds and the goroutine-leak count are asserted in the engine only (native replay uses real timers and lower bounds)", "outside: runtime schedules (pre-emption), symbolic durations"},
 	"C19": {"DoH seam as C14; (*http.Transport).RoundTrip modelled as: dial the canonical address of URL.Host through the transport's own DialTLSContext/DialContext with the request context; natively the real http.Transport runs", "bounds: 4 concrete URL forms x <=2 (3) HTTPS records with ALPN a symbolic subset of {h2,h3,http/1.1,x}, no-default-alpn symbolic, optional alias record, with/without an HTTP/3 round-tripper, Host header override, Transport.TLSConfig", "pool keys (verifC19PoolKeys): 15 adversarially similar concrete origins (incl. IPv6 literals), with/without HTTPS records (scheme upgrade) and a shared Host header override, pairwise: different scheme/host/port never share the address the underlying transport is asked to dial (its pool key)", "outside: net/http connection pooling itself (read, not encoded)"},
 	"C20": {"seams: getZoneData and updateRecord diverted to harness hooks (source overlay); pagination/JSON/HTTP status handling are behind the seams", "oracle: token-level reference (split on single spaces) in the harness", "preconditions: no spaces inside a parameter", "bounds: first record with <=2 (3) parameters (known shapes or <=2 (4) symbolic bytes over {e,c,h,=,\",a,1}; several ech entries may occur), second record fixed in the quick tier, a second zone with a record of the same name; config lists whose base64 has no/one/two padding characters and '+' '/'; <=2 (3) targets incl. duplicates, unknown zone, missing name; one injected fault (zone listing or first PATCH)"},
